@@ -112,11 +112,22 @@ Proof.
     + apply (list_eqb_eq N N.eqb N.eqb_eq). reflexivity.
 Qed.
 
+Definition kv_eqb (a b : elt * elt) : bool := elt_eqb (fst a) (fst b) && elt_eqb (snd a) (snd b).
+Lemma kv_eqb_eq : forall a b, kv_eqb a b = true <-> a = b.
+Proof.
+  intros [a1 a2] [b1 b2]. unfold kv_eqb. simpl. split.
+  - intros H. apply andb_true_iff in H. destruct H as [H1 H2].
+    apply elt_eqb_eq in H1. apply elt_eqb_eq in H2. subst. reflexivity.
+  - intros H. inversion H; subst. apply andb_true_iff. split; apply elt_eqb_eq; reflexivity.
+Qed.
+
 Lemma obj_eqb_eq : forall a b, obj_eqb a b = true <-> a = b.
 Proof.
   intros a b; split.
   - destruct a, b; simpl; intros H; try discriminate; try reflexivity; eqb_crush; try reflexivity.
-    apply (list_eqb_eq elt elt_eqb elt_eqb_eq) in H. subst. reflexivity.
+    + apply (list_eqb_eq elt elt_eqb elt_eqb_eq) in H. subst. reflexivity.
+    + apply (list_eqb_eq elt elt_eqb elt_eqb_eq) in H. subst. reflexivity.
+    + apply (list_eqb_eq _ kv_eqb kv_eqb_eq) in H. subst. reflexivity.
   - intros ->. destruct b; simpl; try reflexivity.
     + apply Bool.eqb_reflx.
     + apply Z.eqb_refl.
@@ -126,6 +137,8 @@ Proof.
     + rewrite cls_eqb_refl, Nat.eqb_refl. reflexivity.
     + apply cls_eqb_refl.
     + apply (list_eqb_eq elt elt_eqb elt_eqb_eq). reflexivity.
+    + apply (list_eqb_eq elt elt_eqb elt_eqb_eq). reflexivity.
+    + apply (list_eqb_eq _ kv_eqb kv_eqb_eq). reflexivity.
 Qed.
 
 Lemma obj_eqb_refl : forall a, obj_eqb a a = true.
